@@ -16,7 +16,7 @@ MANIFEST_INFO = {
     "engine": "A",
     "design_ref": "DESIGN.md section 5, C02",
     "technique": "stateless deviation-bounded DFS over stage/cleanup/fixture behaviours of generated TestCase programs whose cleanups, patches and (nested) fixtures are registered at every site (setUp before/after the up-call, test, tearDown, inside another cleanup); execution log compared with the stack-discipline lifecycle model; second run() of the same instance replayed from memoised decisions",
-    "level_text": "For every ordered selection of up to 3 registrations from 13 kinds (cleanup at 4 sites, cleanup registered by a cleanup, patch of an existing/missing attribute incl. double patch, fixture at 3 sites, nested fixture) and every program with at most 2 (quick) / 3 (thorough) deviating stages or fixture hooks, the real run is compared with the model: setUp first, test+tearDown iff setUp returned, then the cleanup stack popped to empty (each registration exactly once, LIFO, BaseExceptions included), patched attributes restored, and a second run() of the same instance produces the same log and outcome.",
+    "level_text": "For every ordered selection of up to 3 registrations from 15 kinds (cleanup at 4 sites, cleanup registered by a cleanup, patch of an existing/missing attribute incl. double patch, fixture at 3 sites, nested fixture) and every program with at most 2 (quick) / 3 (thorough) deviating stages or fixture hooks, the real run is compared with the model: setUp first, test+tearDown iff setUp returned, then the cleanup stack popped to empty (each registration exactly once, LIFO, BaseExceptions included), patched attributes restored, and a second run() of the same instance produces the same log and outcome.",
     "level_note": "Programs always up-call; fixtures use the fixtures 4.x _setUp protocol; attribute writes on the patched object are logged by the object itself.",
 }
 
@@ -30,6 +30,8 @@ REGS = (
     "patch_existing@setUp",
     "patch_missing@test",
     "patch_existing@test",
+    "patch_none@test",
+    "patch_missing_to_none@setUp",
     "fixture@setUp",
     "fixture@test",
     "fixture@tearDown",
@@ -160,6 +162,10 @@ def build_actions(regs):
             actions.setdefault(site, []).append(("patch", "existing", "v" + rid))
         elif kind == "patch_missing":
             actions.setdefault(site, []).append(("patch", "missing", "v" + rid))
+        elif kind == "patch_none":
+            actions.setdefault(site, []).append(("patch", "nothing", "v" + rid))
+        elif kind == "patch_missing_to_none":
+            actions.setdefault(site, []).append(("patch", "missing", None))
         elif kind == "fixture":
             actions.setdefault(site, []).append(("fixture", rid, None))
         elif kind == "nested_fixture":
@@ -226,17 +232,28 @@ def check_execution(ctx, config, run1, run2):
             problems.append(("patch-restore", "patched attribute 'existing' is %r after run()" % (getattr(sc, "existing", None),)))
         if hasattr(sc, "missing"):
             problems.append(("patch-restore", "attribute 'missing' still present after run(): %r" % (sc.missing,)))
+        if getattr(sc, "nothing", "<absent>") is not None:
+            problems.append(("patch-restore", "attribute 'nothing' (None before the test) is %r after run()" % (getattr(sc, "nothing", "<absent>"),)))
     if (outs1, how1) != (outs2, how2) or pg.impl_stage_log(xlog1) != pg.impl_stage_log(xlog2):
         problems.append(("rerun", "second run() differs: first %r %r %r, second %r %r %r" % (outs1, how1, pg.impl_stage_log(xlog1), outs2, how2, pg.impl_stage_log(xlog2))))
     return problems, model
 
 
+CORE = ("cleanup@setUp.pre", "cleanup@setUp", "cleanup@test", "cleanup@tearDown", "cleanup_by_cleanup@test", "patch_existing@test", "fixture@test")
+
+
 def all_regsets(tier):
     out = [()]
-    for n in (1, 2, 3):
+    for n in (1, 2):
         for combo in itertools.product(REGS, repeat=n):
             out.append(combo)
-    if tier == "thorough":
+    if tier == "quick":
+        # triples: any kind in the middle, core kinds around it
+        for a, b, c in itertools.product(CORE, REGS, CORE):
+            out.append((a, b, c))
+    else:
+        for combo in itertools.product(REGS, repeat=3):
+            out.append(combo)
         # quadruples: every ordered pair of kinds between two plain cleanups
         for a, b in itertools.product(REGS, repeat=2):
             out.append(("cleanup@setUp", a, b, "cleanup@test"))
@@ -280,7 +297,7 @@ def meta(tier):
     return {
         "technique": MANIFEST_INFO["technique"],
         "rule": "for every registration selection: every choice sequence with <= bound deviating stages / fixture hooks; each execution runs the instance twice; non-trivial = >= 1 deviation; distinct = distinct (registrations, execution log, outcome)",
-        "bounds": {"registrations": "all ordered selections of <=3 of 13 kinds (thorough: plus all pairs between two plain cleanups)", "deviations": 2 if tier == "quick" else 3, "stage_kinds": list(KINDS)},
+        "bounds": {"registrations": "all ordered selections of <=2 of 15 kinds; triples core x any x core (quick) / all triples plus all pairs between two plain cleanups (thorough)", "deviations": 2 if tier == "quick" else 3, "stage_kinds": list(KINDS)},
         "assumptions": ["programs always up-call", "cleanup functions registered by the harness are distinct objects with unique ids"],
     }
 
